@@ -60,7 +60,7 @@ claim("C11",
       "independent of the mount path, and changed by any single-byte change of a footer-derived field; and the COVERAGE statement on the real "
       "pass-2 block of enumerate_parquet, cut verbatim out of the working tree on every run (mode S:cut) with the row-group inventory as a "
       "symbolic parameter: for a row group of 1..=3 rows and 0..=2^40 bytes in a table of up to 2^46 bytes on 1/8/64 nodes, of 1..=3 rows and "
-      "0..=255 bytes in a small table on 3/5 nodes, of 1..=4 rows / 0..=63 bytes and 1..=5 rows / 0..=31 bytes on 5 nodes, and for a whole table of "
+      "0..=255 bytes in a small table on 3/5 nodes, of 1..=4 rows / 0..=63 bytes and 1..=5 rows / 0..=31 bytes on 5 nodes, 1..=5 rows / 0..=255 bytes on 8 nodes, and for a whole table of "
       "two row groups (1..=2 rows, 0..=63 bytes each) on 3 nodes, the emitted splits are non-empty, contiguous from row 0, cover every row "
       "exactly once, number at most `rows`, their bytes sum exactly to the row group's (hence to the table's), and nothing else is emitted. "
       "Partial: pass 1 (footers through the metadata cache), the two canonical sorts (file order / mount independence of the split list) and "
